@@ -7,6 +7,11 @@
 //   P <hex>         pointer: "<text hex> <reserved ok>"
 //   RF <text hex>   FilePiece::ReadFloat on the given text (followed by a newline): "<bits>" or PERR
 //   RD <text hex>   FilePiece::ReadDouble likewise
+//   IRT <U|I> <M|S|Z> <min_buffer> <target bytes or 0> <seed> <count>   integer round trip through the streams: <count> (or as
+//                   many as fill <target bytes> exactly) uint64 / int64 values are written with util::FileStream <<, one per
+//                   line, NOTHING after the last one; read back with ReadULong / ReadLong from the file by name (M: mmap),
+//                   through std::istream (S) or from a gzip copy (Z); then one more read must report end of input.
+//                   Answer: "ok <values> <bytes>" or "MISMATCH #<index> wrote <v> read <v|exception>"
 //   FS <buffer size> <item> ...   util::FileStream(fd, buffer size) << items; item = d:<bits64> f:<bits32> u:<hex uint64>
 //                   i:<hex int64> p:<hex pointer> s:<length of a string>.  The driver is linked with -Wl,--wrap=malloc: the
 //                   allocation FileStream's constructor makes is followed by 64 canary bytes.  Answer:
@@ -36,6 +41,8 @@
 #include <vector>
 #include <inttypes.h>
 #include <unistd.h>
+#include <fstream>
+#include <zlib.h>
 #include <stdint.h>
 
 // --wrap=malloc: while armed, remember the first allocation and put canary bytes after it
@@ -202,6 +209,99 @@ void case_fs(std::istringstream &in, std::ostream &o, const std::string &size_ar
   o << ' ' << std::dec << g_block_size << ' ' << (content == ref.str() ? 1 : 0);
 }
 
+uint64_t splitmix(uint64_t &s);
+uint64_t irt_value(uint64_t &s, bool is_signed, unsigned max_digits) {
+  uint64_t r = splitmix(s), v;
+  switch (r % 5) {
+    case 0: { uint64_t p = 1; unsigned k = (r >> 8) % 20; for (unsigned i = 0; i < k; ++i) p *= 10; v = p + ((r >> 16) % 3) - 1; break; }
+    case 1: v = (1ULL << ((r >> 8) % 64)) + ((r >> 16) % 3) - 1; break;
+    case 2: v = (r >> 8) % 100000; break;
+    default: v = splitmix(s) >> ((r >> 8) % 64); break;
+  }
+  if (max_digits < 20) { uint64_t lim = 1; for (unsigned i = 0; i < max_digits; ++i) lim *= 10; v %= lim; }
+  if (is_signed && max_digits < 20 && (int64_t)v < 0) v >>= 1;
+  return v;
+}
+template <class T> std::string irt_text(T v) { util::StringStream s; s << v; return s.str(); }
+
+void case_irt(std::istringstream &in, std::ostream &o, const std::string &kind) {
+  std::string backend; size_t min_buffer, target, count; uint64_t seed;
+  in >> backend >> std::hex >> min_buffer >> target >> seed >> count;
+  bool is_signed = kind == "I";
+  uint64_t s = seed * 7919 + 13;
+  std::vector<uint64_t> vals;
+  std::string text;
+  if (target) {
+    // fill exactly `target` bytes: lines, then a last value with exactly the number of characters that are left
+    while (true) {
+      size_t left = target - text.size();
+      if (left <= 19) break;
+      uint64_t v = irt_value(s, is_signed, left > 24 ? 20 : (unsigned)(left - 3));
+      std::string tx = is_signed ? irt_text((int64_t)v) : irt_text(v);
+      if (tx.size() + 1 + 1 > left) continue;
+      vals.push_back(v); text += tx; text += '\n';
+    }
+    size_t left = target - text.size();         // 1..19 characters
+    bool neg = is_signed && left >= 2 && (splitmix(s) & 1);
+    size_t nd = left - (neg ? 1 : 0);
+    uint64_t v = 1 + splitmix(s) % 8;            // leading digit 1..8 keeps 19 digits inside int64
+    for (size_t i = 1; i < nd; ++i) v = v * 10 + splitmix(s) % 10;
+    if (neg) v = (uint64_t)(-(int64_t)v);
+    vals.push_back(v);
+    text += is_signed ? irt_text((int64_t)v) : irt_text(v);
+  } else {
+    for (size_t i = 0; i < count; ++i) {
+      uint64_t v = irt_value(s, is_signed, 20);
+      vals.push_back(v);
+      text += is_signed ? irt_text((int64_t)v) : irt_text(v);
+      if (i + 1 < count) text += '\n';
+    }
+  }
+  // the file is written by the stream under test as well
+  char name[] = "/var/tmp/c19_irt_XXXXXX";
+  int fd = mkstemp(name);
+  if (fd < 0) { o << "EXC:mkstemp"; return; }
+  {
+    util::FileStream out(fd, 200);
+    for (size_t i = 0; i < vals.size(); ++i) {
+      if (is_signed) out << (int64_t)vals[i]; else out << vals[i];
+      if (i + 1 < vals.size()) out << '\n';
+    }
+  }
+  close(fd);
+  std::string gzname = std::string(name) + ".gz";
+  {
+    std::ifstream chk(name, std::ios::binary);
+    std::string content((std::istreambuf_iterator<char>(chk)), std::istreambuf_iterator<char>());
+    if (content != text) { o << "MISMATCH file-content FileStream wrote " << content.size() << " bytes, StringStream " << text.size(); unlink(name); return; }
+  }
+  std::ifstream is;
+  util::FilePiece *f = NULL;
+  try {
+    if (backend == "M") f = new util::FilePiece(name, NULL, min_buffer);
+    else if (backend == "S") { is.open(name, std::ios::binary); f = new util::FilePiece(is, "c19-irt", min_buffer); }
+    else {
+      gzFile g = gzopen(gzname.c_str(), "wb6");
+      gzwrite(g, text.data(), (unsigned)text.size());
+      gzclose(g);
+      f = new util::FilePiece(gzname.c_str(), NULL, min_buffer);
+    }
+    for (size_t i = 0; i < vals.size(); ++i) {
+      uint64_t got;
+      try { got = is_signed ? (uint64_t)f->ReadLong() : (uint64_t)f->ReadULong(); }
+      catch (const std::exception &e) { o << "MISMATCH #" << std::dec << i << " wrote " << std::hex << vals[i] << " read exception"; delete f; unlink(name); unlink(gzname.c_str()); return; }
+      if (got != vals[i]) { o << "MISMATCH #" << std::dec << i << " of " << vals.size() << " wrote " << std::hex << vals[i] << " read " << got; delete f; unlink(name); unlink(gzname.c_str()); return; }
+    }
+    bool ended = false;
+    try { if (is_signed) f->ReadLong(); else f->ReadULong(); } catch (const std::exception &) { ended = true; }
+    if (!ended) o << "MISMATCH data after the last value";
+    else o << "ok " << std::dec << vals.size() << ' ' << text.size();
+  } catch (const std::exception &e) { o << "EXC:" << e.what(); }
+  delete f;
+  unlink(name);
+  unlink(gzname.c_str());
+}
+
 void case_ptr(const std::string &arg, std::ostream &o) {
   char buf[kRoom];
   bool ok;
@@ -360,6 +460,7 @@ int main() {
       else if (cmd == "U64") case_int<uint64_t>(a, o);
       else if (cmd == "I64") case_int<int64_t>(a, o);
       else if (cmd == "P") case_ptr(a, o);
+      else if (cmd == "IRT") { std::istringstream in2(line); std::string c0, k; in2 >> c0 >> k; case_irt(in2, o, k); }
       else if (cmd == "FS") { std::istringstream in2(line); std::string c0, sz; in2 >> c0 >> sz; case_fs(in2, o, sz); }
       else if (cmd == "RF") case_read(a, o, false);
       else if (cmd == "RD") case_read(a, o, true);
